@@ -280,7 +280,7 @@ pub fn c06_dfs_pred_array_n3() {
 }
 
 // Dfs over every digraph on 4 vertices x every source set (16 symbolic bits).
-// @verif prop=C06 tier=thorough fl=f2 role=dfs/array t=3600 mem=24
+// @verif prop=C06 tier=thorough fl=f2 role=dfs/array t=3600 mem=16
 #[cfg_attr(kani, kani::proof)]
 #[cfg_attr(kani, kani::unwind(6))]
 pub fn c06_dfs_array_n4() {
